@@ -100,3 +100,13 @@ package keeper
 //@ trusted
 //@ opt maporder0=returns-dead: members of ValidatorSet have a Validators record (RI L2); collections Set/Remove do not fail
 //@ modifies st.locking.ValidatorSet, st.locking.Validators
+
+// ---- C13: a token weight change re-ranks every holder of the token -------------------------------------------------
+// The iterator is abstracted to an arbitrary sequence of entries (A-iter, govc/summ_iter.go), so the clause holds for
+// every content of the per-token index: a validator that was ranked under its power and still has positive power
+// afterwards is ranked under its new power (no holder drops out of the ranking because of a weight update).
+//@ func (Keeper).onWeightChanged
+//@ property C13
+//@ ensures stays_ranked: err == nil ==> forallb(a, old(has(st.locking.Validators, a)) && old(has(st.locking.PowerRanking, pair(st.locking.Validators[a].Power, a))) && st.locking.Validators[a].Power > 0 ==> has(st.locking.PowerRanking, pair(st.locking.Validators[a].Power, a)))
+//@ loop 0 invariant stays_ranked: forallb(a, old(has(st.locking.Validators, a)) && old(has(st.locking.PowerRanking, pair(st.locking.Validators[a].Power, a))) && st.locking.Validators[a].Power > 0 ==> has(st.locking.PowerRanking, pair(st.locking.Validators[a].Power, a)))
+//@ modifies st.locking.Validators, st.locking.PowerRanking
